@@ -16,7 +16,7 @@ import (
 func init() {
 	addBreakers("C14",
 		Breaker{Name: "error-chain-cut-in-retry-loop", File: "internal/controller/ledger/log_process.go",
-			Old: "return nil, nil, false, fmt.Errorf(\"unexpected error while forging log: %w\", err)", New: "return nil, nil, false, fmt.Errorf(\"unexpected error while forging log: %s\", err)", Expect: "WRAP/error-chain"},
+			Old: "\t\t\t\treturn nil, nil, false, fmt.Errorf(\"unexpected error while forging log: %w\", err)", New: "\t\t\t\treturn nil, nil, false, fmt.Errorf(\"unexpected error while forging log: %s\", err)", Expect: "WRAP/error-chain"},
 		Breaker{Name: "bucket-wide-unique-reference", File: "internal/storage/bucket/migrations/14-transaction-reference-index/up.sql",
 			Old: "transactions_reference2 on \"{{.Schema}}\".transactions (ledger, reference) where reference <> '';", New: "transactions_reference2 on \"{{.Schema}}\".transactions (ledger, reference) where reference <> '';\ncreate unique index transactions_reference_lookup on \"{{.Schema}}\".transactions (reference) where reference <> '';", Expect: "CAT/unique-scope"},
 	)
